@@ -39,6 +39,10 @@ def ev(E, P, rows):
         return E[1] + E[2] * np.sin(E[3] * P[E[4]][:, 0])
     if k == "aff2":
         return E[1] + E[2] * P[E[3]][:, 0] + E[4] * P[E[5]][:, 0]
+    if k == "aff2d":      # a + b*v1 + c*v2 where v2 has the DEFAULT value E[6] (used when v2 is not supplied)
+        return E[1] + E[2] * P[E[3]][:, 0] + E[4] * (P[E[5]][:, 0] if E[5] in P else E[6])
+    if k == "affd":       # a + c*v, v with default E[4]
+        return E[1] + E[2] * (P[E[3]][:, 0] if E[3] in P else np.full(rows, float(E[4])))
     raise ValueError(E)
 
 
@@ -55,7 +59,20 @@ def e_vars(E):
         return {E[4]}
     if E[0] == "aff2":
         return {E[3], E[5]}
+    if E[0] == "aff2d":
+        return {E[3]}          # the REQUIRED variables: a default-valued one is not needed
+    if E[0] == "affd":
+        return set()
     raise ValueError(E)
+
+
+def e_opt(E):
+    """Default-valued variables of E: name -> default."""
+    if isinstance(E, list) and E and E[0] == "aff2d":
+        return {E[5]: float(E[6])}
+    if isinstance(E, list) and E and E[0] == "affd":
+        return {E[3]: float(E[4])}
+    return {}
 
 
 def e_src(E):
@@ -66,8 +83,10 @@ def e_src(E):
         return "(%r + %r*%s)" % (float(E[1]), float(E[2]), E[3])
     if E[0] == "sin":
         return "(%r + %r*torch.sin(%r*%s))" % (float(E[1]), float(E[2]), float(E[3]), E[4])
-    if E[0] == "aff2":
+    if E[0] in ("aff2", "aff2d"):
         return "(%r + %r*%s + %r*%s)" % (float(E[1]), float(E[2]), E[3], float(E[4]), E[5])
+    if E[0] == "affd":
+        return "(%r + %r*%s)" % (float(E[1]), float(E[2]), E[3])
     raise ValueError(E)
 
 
@@ -88,6 +107,18 @@ def e_subst(E, vals):
         if v2 in vals:
             return ["aff", a + c * vals[v2], b, v1]
         return E
+    if E[0] == "aff2d":
+        a, b, v1, c, v2, dv = E[1:]
+        if v1 in vals and v2 in vals:
+            return a + b * vals[v1] + c * vals[v2]
+        if v1 in vals:
+            # every required name is bound: the library evaluates at once, the optional one takes its default
+            return a + b * vals[v1] + c * dv
+        if v2 in vals:
+            return ["aff", a + c * vals[v2], b, v1]
+        return E
+    if E[0] == "affd":
+        return E[1] + E[2] * vals[E[3]] if E[3] in vals else E
     raise ValueError(E)
 
 
